@@ -444,6 +444,9 @@ func (self *Analyzer) functionLiteral(node pAst.FunctionLiteralExpression) ast.A
 
 	// set current function (the enclosing function is restored after the body)
 	prevFunction := self.currentModule.CurrentFunction
+	prevLoopDepth := self.currentModule.LoopDepth
+	prevLoopIsTerminated := self.currentModule.CurrentLoopIsTerminated
+	self.currentModule.LoopDepth = 0
 	moduleFn := newFunction(
 		node.Span(),
 		newLambdaFunction(),
@@ -472,6 +475,8 @@ func (self *Analyzer) functionLiteral(node pAst.FunctionLiteralExpression) ast.A
 	self.dropScope(true)
 
 	self.currentModule.CurrentFunction = prevFunction
+	self.currentModule.LoopDepth = prevLoopDepth
+	self.currentModule.CurrentLoopIsTerminated = prevLoopIsTerminated
 
 	return ast.AnalyzedFunctionLiteralExpression{
 		Parameters: newParams,
